@@ -32,7 +32,7 @@ RULE = ('case = (designer in {random, quasi-random, shuffled grid, eagle, NSGA-I
         'bandit, GP-UCB-PE}, wrapper in {bare designer, InRamDesignerPolicy via '
         'PolicySuggester}, generated flat space of 1-4 parameters of all kinds, seed in '
         '{0, 1, 16-bit, 31-bit}, 2-5 step script with scripted partial completion and '
-        'infeasible trials) or a seeded BenchmarkRunner execution (11 BBOB functions x 9 '
+        'infeasible trials) or a seeded BenchmarkRunner execution (18 BBOB functions x 9 '
         'noise types x routines of GenerateAndEvaluate / GenerateSuggestions / '
         'FillActiveTrials / EvaluateActiveTrials). Each case is executed 3-6 times under the '
         'variants above; distinct = hash of (type, designer, wrapper, space shape, batch '
@@ -122,8 +122,7 @@ def gen_bench_case(rng, kind):
   if kind == 'eagle':
     ds['cfg'] = {'variant': 'default'}
   return {'type': 'bench', 'designer': ds, 'fn': rng.choice(X.BBOB_FNS),
-          'fn_seed': 0,   # (rotated BBOB variants raise TypeError under this numpy)
-          'dim': rng.choice([2, 3, 4]),
+          'fn_seed': rng.choice([0, 1, 7]), 'dim': rng.choice([2, 3, 4]),
           'noise': rng.choice(X.NOISES), 'noise_seed': rng.choice([0, 1, rng.getrandbits(20)]),
           'seed': _seed(rng), 'routine': routine, 'repeats': rng.choice([1, 2, 3])}
 
